@@ -1111,7 +1111,12 @@ def runOcfr : P String := do
       else if kind = "trunc" ∧ known ∧ ¬ keys.all (fun k => isInit k || (isPrefixOf (valuesOf k) expected && decide (wellFormed k))) then
         "VIOLATION truncated file: yields are not (a prefix of the written values, then error or end, then end)"
       else if ¬ keys.all (fun k => isInit k || k.getLast? == some "eof") then
-        "VIOLATION the reader does not reach end of stream (endless yields)"
+        -- a run of datum errors only: the corrupted object count claims more objects than the
+        -- block holds and each further call reports one more error (finding D27)
+        (if kind == "flip" && keys.all (fun k => isInit k || k.getLast? == some "eof" ||
+              ((k.reverse.take 100).all (· == "e") && k.length ≥ 100)) then
+          "VIOLATION D27-shape corrupted object count: one datum error per claimed object, no end of stream within 400 calls"
+        else "VIOLATION the reader does not reach end of stream (endless yields)")
       else if !c11 then
         (if d19shape then "VIOLATION D19-shape corrupted block: outcomes agree up to the first error, then the slice back-end (recoverable datum error) carries on while a reader (I/O error at end of input) stops"
          else if d16shape then "VIOLATION D16-shape declared block size exceeds the remaining input: the slice back-end rejects the block up front, a reader yields the objects it can decode first"
